@@ -12,6 +12,7 @@ op_ctx = dict(
         (r'stopCallback_\.emplace\(get_stop_token\(receiver_\), cancel_callback\{this\}\)', 'EV_cb_construct(self)'),
         (r'unifex::start\(sourceOp_\)', 'EV_start_source(self)'),
         (r'unifex::start\(triggerOp_\)', 'EV_start_trigger(self)'),
+        (r'stopSource_\.stop_requested\(\)', 'EV_children_stop_requested(self)'),
         (r'stopSource_\.request_stop\(\)', 'EV_stop_children(self)'),
         (r'stopCallback_\.reset\(\)', 'EV_cb_destruct(self)'),
         # deliver_result(): std::visit over result_ calling the stored set_xxx on the receiver -> event stub (C05: the SOURCE's result)
@@ -24,6 +25,7 @@ cancel_ctx = dict(
     members=['op_'],
     methods=[],
     pre=[
+        (r'op->stopSource_\.stop_requested\(\)', 'EV_children_stop_requested(op)'),
         (r'op->stopSource_\.request_stop\(\)', 'EV_stop_children(op)'),
         (r'op->deliver_result\(\)', 'EV_deliver_result(op)'),
     ],
